@@ -73,6 +73,7 @@ class World:
         self.next_ev = 0
         self.exc = None
         self.cur = None
+        self.full_trace = []
         sp.time = types.SimpleNamespace(time=lambda: 1000.0)
         sp.GlobalSerial.serial = -1
         events.clear()
@@ -165,6 +166,9 @@ class World:
         if id(event) not in self.evids:
             self.evids[id(event)] = self.next_ev
             self.evobjs.append(event)
+            # a marker for the monitors only (filtered out of the observable lines by run()): where in the sequence
+            # of observations this event was emitted -- this subscriber runs before the pools' own
+            self.trace.append('ev:%d' % self.next_ev)
             self.next_ev += 1
 
     def evname(self, event):
@@ -206,7 +210,8 @@ class World:
             err = 'OSError:%s' % e.args[0]
         except Exception as e:   # anything else escaping is itself an observation
             err = type(e).__name__
-        return list(self.trace), err
+        self.full_trace = list(self.trace)          # with the 'ev:' emission markers
+        return [x for x in self.trace if not x.startswith('ev:')], err
 
     # ---- operations ----------------------------------------------------------------------
     def spawn(self, pi, li, pid):
@@ -411,3 +416,151 @@ class DocAutomaton:
             v = self.verdict(result)
             self.outs.append(('handled', result, v))
             self.state = 'UNKNOWN' if v == 'error' else 'ACKNOWLEDGED'
+
+
+# ---------------------------------------------------------------------------------------------
+# the documented event type hierarchy (docs/events.rst "*Subtype Of*" lines): the oracle for "subscribed"
+
+class DocTypes:
+    """Which pools must be offered an event is decided from the documentation of the tree under verification, never
+    from issubclass(): a class that silently gains or loses a base class changes the code's answer, not this one."""
+    _cache = {}
+
+    def __init__(self):
+        from sites.events import documented_hierarchy, documented_chain
+        self.table = documented_hierarchy()
+        self.names = [n for n, _ in self.table]
+        self.chain = {n: documented_chain(self.table, n) for n in self.names}
+        parents = {p for _, p in self.table if p}
+        self.concrete = [n for n in self.names if n not in parents]
+        self.abstract = [n for n in self.names if n in parents]
+
+    @classmethod
+    def get(cls):
+        import os
+        key = os.environ.get('VERIF_REPO', '/repo')
+        if key not in cls._cache:
+            cls._cache[key] = cls()
+        return cls._cache[key]
+
+    def is_a(self, name, typ):
+        """an event of the type named `name` is a `typ` (itself or a documented supertype)"""
+        return typ in (self.chain.get(name) or [])
+
+    def subscribed(self, types, name):
+        return any(self.is_a(name, t) for t in types)
+
+
+# ---------------------------------------------------------------------------------------------
+# histories over several pools, shared by C09 (its own Run), C10 and C11: one operation line at a time
+
+def exec_op(w, pools, op):
+    """run one operation line on World `w`; returns (canonical op line or None when it does not apply, outs, err).
+    The canonical line of die / spawn carries the payload of the PROCESS_STATE event the real code emits."""
+    t = op.split()
+    if t[0] == 'notify':
+        outs, err = w.notify(t[1], bytes.fromhex(t[2]).decode() if t[2] != '-' else '')
+    elif t[0] == 'transition':
+        outs, err = w.transition(int(t[1]))
+    elif t[0] == 'read':
+        outs, err = w.read(int(t[1]), int(t[2]), bytes.fromhex(t[3]) if t[3] != '-' else b'')
+    elif t[0] == 'wev':
+        outs, err = w.wev(int(t[1]), int(t[2]))
+    elif t[0] == 'pstate':
+        outs, err = w.pstate(int(t[1]), int(t[2]), t[3])
+    elif t[0] == 'cap':
+        outs, err = w.cap(int(t[1]), int(t[2]), None if t[3] == 'inf' else int(t[3]))
+    elif t[0] == 'breakpipe':
+        outs, err = w.breakpipe(int(t[1]), int(t[2]))
+    elif t[0] == 'die':
+        pi, li = int(t[1]), int(t[2])
+        p = w.proc(pi, li)
+        if not p.pid:
+            return None, [], '-'
+        PS = w.states.ProcessStates
+        if p.state == PS.STARTING:
+            p.state = PS.RUNNING
+        if p.killing:
+            pay = 'processname:%s groupname:%s from_state:STOPPING pid:%d' % (p.config.name, pools[pi][0], p.pid)
+        else:
+            pay = 'processname:%s groupname:%s from_state:RUNNING expected:1 pid:%d' % (p.config.name, pools[pi][0], p.pid)
+        op = 'die %d %d %s %s' % (pi, li, t[3], hexs(pay.encode()))
+        outs, err = w.die(pi, li, bytes.fromhex(t[3]) if t[3] != '-' else b'')
+    elif t[0] == 'spawn':
+        pi, li = int(t[1]), int(t[2])
+        p = w.proc(pi, li)
+        if p.pid:
+            return None, [], '-'
+        pay = 'processname:%s groupname:%s from_state:%s tries:0' % (
+            p.config.name, pools[pi][0], w.states.getProcessStateDescription(p.state))
+        op = 'spawn %d %d %s %s' % (pi, li, t[3], hexs(pay.encode()))
+        outs, err = w.spawn(pi, li, int(t[3]))
+    else:
+        raise ValueError(op)
+    return op, outs, err
+
+
+class PoolHistory:
+    """A history over several real pools (World) recorded operation by operation: canonical op lines and observable
+    lines (for the correspondence with Model/Pool.lean) plus, per operation, what each property's monitors need:
+    the events emitted during it (with their registered type names), every listener's (state, held event) before
+    and after, and the outs.  No property-specific judgement is made here."""
+
+    def __init__(self, handler, pools, names='unique'):
+        self.handler, self.pools, self.names = handler, pools, names
+        self.w = World(pools, handler=handler, names=names)
+        self.ops, self.lines, self.steps = [], [], []
+        self.pid = 500
+
+    def snapshot(self):
+        w = self.w
+        return [[w.lstate(pi, li) for li in range(len(ls))] for pi, ls in enumerate(w.listeners)]
+
+    def do(self, op):
+        w = self.w
+        before = self.snapshot()
+        ev0 = w.next_ev
+        cop, outs, err = exec_op(w, self.pools, op)
+        if cop is None:
+            return None
+        emitted = [(evid, w.events.getEventNameByType(type(w.evobjs[evid]))) for evid in range(ev0, w.next_ev)]
+        step = {'op': cop, 'outs': outs, 'err': err, 'before': before, 'after': self.snapshot(), 'emitted': emitted,
+                'sent': []}
+        for o in outs:
+            f = o.split(':')
+            if f[0] == 'ls' and f[2] == 'READY>BUSY':
+                qi, qli = [int(x) for x in f[1].split('.')]
+                step['sent'].append((qi, qli, w.evids.get(id(w.proc(qi, qli).event))))
+        self.ops.append(cop)
+        self.lines.append('%s | %s' % (';'.join(outs) if outs else '-', err))
+        self.steps.append(step)
+        return step
+
+    def drain(self, rounds=60):
+        """every listener leaves; per pool a fresh well-behaved listener answers OK until the pool is quiet"""
+        w = self.w
+        ready, ok = b'READY\n'.hex(), b'RESULT 2\nOK'.hex()
+        for pi, ls in enumerate(w.listeners):
+            for li in range(len(ls)):
+                if w.proc(pi, li).pid:
+                    self.do('die %d %d - x' % (pi, li))
+            self.pid += 1
+            self.do('spawn %d 0 %d' % (pi, self.pid))
+            self.do('pstate %d 0 running' % pi)
+        for _ in range(2):
+            for pi in range(len(w.listeners)):
+                for _ in range(rounds):
+                    if w.lstate(pi, 0)[0] == 'ACKNOWLEDGED':
+                        self.do('read %d 0 %s' % (pi, ready))
+                    self.do('transition %d' % pi)
+                    if w.lstate(pi, 0)[0] != 'BUSY':
+                        break
+                    self.do('read %d 0 %s' % (pi, ok))
+
+    def case_line(self):
+        spec = ','.join('%s:%d:%d:%s' % (n, b, l, '+'.join(t)) for n, b, l, t in self.pools)
+        return 'case pool handler=%s names=%s pools=%s' % (self.handler, self.names, spec)
+
+    def stdin_streams(self, pi, li):
+        o = self.w.proc(pi, li).config.options
+        return o.accepted_all + [o.accepted]
